@@ -78,8 +78,8 @@ func vpC08History(n int, first int64, span int, maxPower int64, withChange bool)
 	vp.Assert(err != nil, "C08.history.unsaved-height-is-an-error")
 }
 
-func VP_C08_History_n2_low()        { vpC08History(2, 5, 4, 4, false) }
-func VP_C08_History_n2_low_change() { vpC08History(2, 5, 4, 4, true) }
-func VP_C08_History_n2_checkpoint() { vpC08History(2, 99998, 5, 4, false) }
-func VP_C08_History_n3_checkpoint() { vpC08History(3, 99998, 5, 3, false) }
+func VP_C08_History_n2_low()               { vpC08History(2, 5, 4, 4, false) }
+func VP_C08_History_n2_low_change()        { vpC08History(2, 5, 4, 4, true) }
+func VP_C08_History_n2_checkpoint()        { vpC08History(2, 99998, 5, 4, false) }
+func VP_C08_History_n3_checkpoint()        { vpC08History(3, 99998, 5, 3, false) }
 func VP_C08_History_n2_checkpoint_change() { vpC08History(2, 99998, 5, 3, true) }
